@@ -635,7 +635,7 @@ func (x Expr) Get(data any) (results []any) {
 							results = append(results, tv[i])
 						}
 					} else {
-						end = start + (end-start-1)/step*step
+						end = sliceLast(start, end, step)
 						for i := end; start <= i; i -= step {
 							v = tv[i]
 							switch v.(type) {
@@ -662,7 +662,7 @@ func (x Expr) Get(data any) (results []any) {
 							results = append(results, tv[i])
 						}
 					} else {
-						end = start - (start-end-1)/step*step
+						end = sliceLast(start, end, step)
 						for i := end; i <= start; i -= step {
 							v = tv[i]
 							switch v.(type) {
@@ -704,7 +704,7 @@ func (x Expr) Get(data any) (results []any) {
 							results = append(results, tv.ValueAtIndex(i))
 						}
 					} else {
-						end = start + (end-start-1)/step*step
+						end = sliceLast(start, end, step)
 						for i := end; start <= i; i -= step {
 							v = tv.ValueAtIndex(i)
 							switch v.(type) {
@@ -731,7 +731,7 @@ func (x Expr) Get(data any) (results []any) {
 							results = append(results, tv.ValueAtIndex(i))
 						}
 					} else {
-						end = start - (start-end-1)/step*step
+						end = sliceLast(start, end, step)
 						for i := end; i <= start; i -= step {
 							v = tv.ValueAtIndex(i)
 							switch v.(type) {
@@ -772,7 +772,7 @@ func (x Expr) Get(data any) (results []any) {
 							results = append(results, tv[i])
 						}
 					} else {
-						end = start + (end-start-1)/step*step
+						end = sliceLast(start, end, step)
 						for i := end; start <= i; i -= step {
 							v = tv[i]
 							switch v.(type) {
@@ -790,7 +790,7 @@ func (x Expr) Get(data any) (results []any) {
 							results = append(results, tv[i])
 						}
 					} else {
-						end = start - (start-end-1)/step*step
+						end = sliceLast(start, end, step)
 						for i := end; i <= start; i -= step {
 							v = tv[i]
 							switch v.(type) {
@@ -1468,7 +1468,7 @@ func (x Expr) FirstFound(data any) (any, bool) {
 					if int(fi) == len(x)-1 && start < end { // last one
 						return tv[start], true
 					}
-					end = start + (end-start-1)/step*step
+					end = sliceLast(start, end, step)
 					for i := end; start <= i; i -= step {
 						v = tv[i]
 						switch v.(type) {
@@ -1492,7 +1492,7 @@ func (x Expr) FirstFound(data any) (any, bool) {
 					if int(fi) == len(x)-1 && end < start { // last one
 						return tv[start], true
 					}
-					end = start - (start-end-1)/step*step
+					end = sliceLast(start, end, step)
 					for i := end; i <= start; i -= step {
 						v = tv[i]
 						switch v.(type) {
@@ -1531,7 +1531,7 @@ func (x Expr) FirstFound(data any) (any, bool) {
 					if int(fi) == len(x)-1 && start < end { // last one
 						return tv.ValueAtIndex(start), true
 					}
-					end = start + (end-start-1)/step*step
+					end = sliceLast(start, end, step)
 					for i := end; start <= i; i -= step {
 						v = tv.ValueAtIndex(i)
 						switch v.(type) {
@@ -1555,7 +1555,7 @@ func (x Expr) FirstFound(data any) (any, bool) {
 					if int(fi) == len(x)-1 && end < start { // last one
 						return tv.ValueAtIndex(start), true
 					}
-					end = start - (start-end-1)/step*step
+					end = sliceLast(start, end, step)
 					for i := end; i <= start; i -= step {
 						v = tv.ValueAtIndex(i)
 						switch v.(type) {
@@ -1593,7 +1593,7 @@ func (x Expr) FirstFound(data any) (any, bool) {
 					if int(fi) == len(x)-1 && start < end { // last one
 						return tv[start], true
 					}
-					end = start + (end-start-1)/step*step
+					end = sliceLast(start, end, step)
 					for i := end; start <= i; i -= step {
 						v = tv[i]
 						switch v.(type) {
@@ -1608,7 +1608,7 @@ func (x Expr) FirstFound(data any) (any, bool) {
 					if int(fi) == len(x)-1 && end < start { // last one
 						return tv[start], true
 					}
-					end = start - (start-end-1)/step*step
+					end = sliceLast(start, end, step)
 					for i := end; i <= start; i -= step {
 						v = tv[i]
 						switch v.(type) {
